@@ -358,7 +358,17 @@ def UNFIT_TIDS(types):
 
 
 def run_typelevel(rep, prop_id, cases_fn, rng, tier, rule, assumptions, allow_bv=False):
-    all_types = T.load_corpus()
+    if tier == "thorough":
+        try:
+            return _run_typelevel(rep, prop_id, cases_fn, rng, tier, rule, assumptions, allow_bv,
+                                  random_spec=f"60:{rep.seed * 100 + int(prop_id[1:])}")
+        finally:
+            T.restore_corpus()
+    return _run_typelevel(rep, prop_id, cases_fn, rng, tier, rule, assumptions, allow_bv)
+
+
+def _run_typelevel(rep, prop_id, cases_fn, rng, tier, rule, assumptions, allow_bv=False, random_spec=""):
+    all_types = T.load_corpus(random_spec)
     types = enumerable(all_types)
     pl = proof_layer(prop_id, allow_bv=allow_bv, thorough=(tier == "thorough"))
     c = cases_fn(types, rng, tier)
@@ -394,5 +404,6 @@ def run_typelevel(rep, prop_id, cases_fn, rng, tier, rule, assumptions, allow_bv
         "oracle_failures": r["oracle_failures"] if r else None,
         "input_distribution": r["hist"] if r else {},
         "corpus": [t["label"] for t in types],
+        "random_types": random_spec or None,
     }
     rep.assumptions = assumptions
